@@ -245,6 +245,10 @@ impl RemoteStateActor {
         shutdown_token: CancellationToken,
     ) -> (EndpointId, Vec<RemoteStateMessage>) {
         trace!("actor started");
+        #[cfg(iroh_verif)]
+        iroh_base::verif::event("remote_state.start", || {
+            format!("{} initial={}", self.state.endpoint_id, initial_msgs.len())
+        });
         for msg in initial_msgs {
             self.handle_message(msg).await;
         }
@@ -334,6 +338,10 @@ impl RemoteStateActor {
             }
         }
 
+        #[cfg(iroh_verif)]
+        iroh_base::verif::event("remote_state.loop_exit", || self.state.endpoint_id.to_string());
+        #[cfg(iroh_verif)]
+        iroh_base::verif::pause_async("remote_state.before_close").await;
         inbox.close();
         // There might be a race between checking `inbox.is_empty()` and `inbox.close()`,
         // so we pull out all messages that are left over.
@@ -341,6 +349,10 @@ impl RemoteStateActor {
         inbox.recv_many(&mut leftover_msgs, inbox.len()).await;
 
         trace!("actor terminating");
+        #[cfg(iroh_verif)]
+        iroh_base::verif::event("remote_state.stop", || {
+            format!("{} leftover={}", self.state.endpoint_id, leftover_msgs.len())
+        });
         (self.state.endpoint_id, leftover_msgs)
     }
 
@@ -365,9 +377,17 @@ impl RemoteStateActor {
                 self.handle_msg_add_connection(handle, tx);
             }
             RemoteStateMessage::ResolveRemote(addrs, tx) => {
+                #[cfg(iroh_verif)]
+                iroh_base::verif::event("remote_state.handle_resolve", || {
+                    format!("{} {:?}", self.state.endpoint_id, addrs)
+                });
                 self.state.handle_msg_resolve_remote(addrs, tx);
             }
             RemoteStateMessage::RemoteInfo(tx) => {
+                #[cfg(iroh_verif)]
+                iroh_base::verif::event("remote_state.handle_remote_info", || {
+                    self.state.endpoint_id.to_string()
+                });
                 let addrs = self.state.paths.to_remote_addrs();
                 let info = RemoteInfo {
                     endpoint_id: self.state.endpoint_id,
